@@ -157,6 +157,11 @@ func c02Atoms() []c02Atom {
 			if a < b {
 				out = append(out, c02Atom{gen.Between(K(), gen.Str(a), gen.Str(b)), "between", true})
 			}
+			if a > b && (i+j)%3 == 0 {
+				// reversed bounds: a run-time error on every pair that reaches the atom, so it
+				// constrains nothing; the clause is judged on the pairs that never reach it
+				out = append(out, c02Atom{gen.Between(K(), gen.Str(a), gen.Str(b)), "opaque", false})
+			}
 		}
 	}
 	out = append(out, c02Atom{gen.In(K(), gen.Str("a"), gen.Str("a")), "mget", false})
@@ -417,7 +422,11 @@ func (r c02Region) contains(k string) bool {
 }
 
 // c02Sat evaluates the clause with the engine's own un-optimised filter.
-func c02Sat(query string, pairs []refstore.Pair) (sat []refstore.Pair, err string) {
+//
+// evaluable: the pairs on which the filter evaluates without a run-time error
+// (a reversed BETWEEN fails on every pair that reaches it); the clause is then
+// judged on the sub-store of those pairs, on which it is evaluable pair by pair.
+func c02Sat(query string, pairs []refstore.Pair) (sat, evaluable []refstore.Pair, err string) {
 	defer func() {
 		if r := recover(); r != nil {
 			err = fmt.Sprint("panic: ", r)
@@ -425,24 +434,32 @@ func c02Sat(query string, pairs []refstore.Pair) (sat []refstore.Pair, err strin
 	}()
 	stmt, perr := kvql.NewParser(query).Parse()
 	if perr != nil {
-		return nil, "parse: " + perr.Error()
+		return nil, nil, "parse: " + perr.Error()
 	}
 	sel, ok := stmt.(*kvql.SelectStmt)
 	if !ok {
-		return nil, "not a select"
+		return nil, nil, "not a select"
 	}
 	f := &kvql.FilterExec{Ast: sel.Where}
 	ctx := kvql.NewExecuteCtx()
+	first := ""
 	for _, p := range pairs {
 		ok, e := f.Filter(kvql.NewKVPStr(p.K, p.V), ctx)
 		if e != nil {
-			return nil, "filter: " + e.Error()
+			if first == "" {
+				first = "filter: " + e.Error()
+			}
+			continue
 		}
+		evaluable = append(evaluable, p)
 		if ok {
 			sat = append(sat, p)
 		}
 	}
-	return sat, ""
+	if len(evaluable) == 0 && first != "" {
+		return nil, nil, first
+	}
+	return sat, evaluable, ""
 }
 
 func (k c02) judgeTree(c *rt.Ctx, tree *gen.Node, endToEnd bool) {
@@ -471,10 +488,17 @@ func (k c02) judge(c *rt.Ctx, tree *gen.Node, endToEnd bool, report *gen.Node) (
 		}
 	}
 	for si, pairs := range [][]refstore.Pair{c02StoreA, c02StoreB} {
-		sat, ferr := c02Sat(query, pairs)
+		sat, evaluable, ferr := c02Sat(query, pairs)
 		if ferr != "" {
-			rec.NotJudged("engine's un-optimised filter failed: " + firstWords(ferr))
+			rec.NotJudged("engine's un-optimised filter failed on every pair: " + firstWords(ferr))
 			return ""
+		}
+		if len(evaluable) < len(pairs) {
+			// judged on the sub-store on which the clause is evaluable pair by pair
+			pairs = evaluable
+			if si == 0 && report == nil {
+				rec.Inc("judged_on_evaluable_substore")
+			}
 		}
 		st := refstore.New(pairs)
 		var plan kvql.FinalPlan
